@@ -255,6 +255,22 @@ def small_cases(rng, n):
     return cases
 
 
+def rebin_cases():
+    """re-configurations that keep the reported shape and change only the binning (or only the sample type): the buffers hold the
+    full-resolution image, so they must follow"""
+    z = " ".join(["0"] * 24)
+    cases = []
+    for kind in (0, 1, 2):
+        for (w, h) in ((64, 64), (33, 7), (17, 1)):
+            for (b1, b2) in ((1, 2), (1, 8), (2, 4), (4, 1), (8, 2)):
+                for (t1, t2) in ((0, 0), (1, 1), (0, 1)):
+                    s1 = "set %d 0 0 %d %d 0 0 %d %d %s" % (fbits(1.0), b1, t1, w, h, z)
+                    s2 = "set %d 0 0 %d %d 0 0 %d %d %s" % (fbits(1.0), b2, t2, w, h, z)
+                    cases.append((kind, ["new %d" % kind, s1, "start", "frame 0", "stop", s2, "start", "frame 0", "stop"]))
+                    cases.append((kind, ["new %d" % kind, s1, s2, "start", "frame 0", "frame 0", "stop"]))
+    return cases
+
+
 def big_cases():
     """the big shapes, once per sample type (thorough tier only): full resolution 8192 x 8192"""
     cases = []
@@ -577,7 +593,7 @@ def run(ctx):
         corpus = corpus_cases()
         sysc = systematic_cases(rng, thorough)
         rnd = random_cases(rng, 250 if thorough else 30, thorough)
-        groups = [("corpus", corpus, None, False), ("sweep", sysc, None, False), ("random", rnd, None, False),
+        groups = [("corpus", corpus, None, False), ("rebin", rebin_cases(), None, False), ("sweep", sysc, None, False), ("random", rnd, None, False),
                   ("small-redzone", corpus + small_cases(rng, 60 if thorough else 18), "max_redzone=16", True)]
         if thorough:
             groups.append(("big", big_cases(), None, False))
